@@ -73,6 +73,9 @@ pub fn run(prop: &str, tier: Tier, budget: f64, out: &mut Outcome) -> Result<(),
         if prop == "C13" {
             c13::backend::part(tier, out)?;
         }
+        if prop == "C09" {
+            c17::c09_sessions_part(out)?;
+        }
         return Ok(());
     }
     Err(MachineryError(format!("unknown property {prop}")))
